@@ -455,10 +455,21 @@ class HookedChecker : public vp::RecordingValidityChecker
 {
 public:
     using vp::RecordingValidityChecker::RecordingValidityChecker;
+    // `boundsblind 1`: a validity checker that does collision checking only and leaves the bounds to the library (allowed by
+    // the StateValidityChecker documentation when interpolation cannot leave the bounds).  The base class still records the
+    // query (with its own bounds-aware verdict); the ANSWER the planner gets ignores the bounds.
+    bool boundsBlind = false;
     bool isValid(const ob::State *state) const override
     {
         g_lazy.afterAstar();
-        return vp::RecordingValidityChecker::isValid(state);
+        const bool v = vp::RecordingValidityChecker::isValid(state);
+        if (boundsBlind && !v)
+        {
+            std::vector<double> r;
+            si_->getStateSpace()->copyToReals(r, state);
+            return !env().collides(r);
+        }
+        return v;
     }
 };
 
@@ -481,6 +492,8 @@ struct Config
     bool trace = false;
     std::vector<double> oneway;  // lo0 lo1 hi0 hi1 of the one-way box (empty: none)
     bool costThrInf = true;  // LazyPRM lock-step: cost threshold of the objective (inf = LazyPRM's own default)
+    std::vector<std::string> calls;  // mode run: calls made on the planner / problem definition BEFORE the judged solve
+    bool boundsBlind = false;       // the validity checker does not look at the bounds
     std::vector<std::string> hist;  // mode history: the calls made on ONE RRT object / problem definition
 };
 
@@ -622,7 +635,9 @@ static int runOnce(const Config &c)
         });
 
     auto si = std::make_shared<ob::SpaceInformation>(space);
-    std::shared_ptr<vp::RecordingValidityChecker> vc = std::make_shared<HookedChecker>(si, env, true);
+    auto hooked = std::make_shared<HookedChecker>(si, env, true);
+    hooked->boundsBlind = c.boundsBlind;
+    std::shared_ptr<vp::RecordingValidityChecker> vc = hooked;
     si->setStateValidityChecker(vc);
     si->setStateValidityCheckingResolution(c.res);
     if (c.oneway.size() == 4)
@@ -788,24 +803,37 @@ static int runOnce(const Config &c)
             setParam("intermediate_states", c.interm ? "1" : "0");
     }
 
-    const std::size_t before = pdef->getSolutionCount();
+    // One solve() + the report of what the problem definition holds afterwards.  With `calls ...` the SAME planner object and
+    // problem definition go through several of these (resume histories): every call's report is printed between
+    // `call <i> begin` / `call <i> end`; the last (unmarked) one is the run's own `budget`.
+    std::size_t before = 0;
     ob::PlannerStatus st;
-    std::string err;
     std::atomic<unsigned long> polls{0};
+    bool firstCall = true;
+    auto solveAndReport = [&](const unsigned long budgetNow) {
+    before = pdef->getSolutionCount();
+    std::string err;
+    polls = 0;
+    st = ob::PlannerStatus();
+    const unsigned long baseCalls = vc->calls() + (vcBase ? vcBase->calls() : 0UL);
     try
     {
-        planner->setProblemDefinition(pdef);
-        if (peek)
-            peek->setNearestNeighbors<ompl::NearestNeighborsLinear>();  // clears, installs, calls setup()
-        else if (peekC)
-            peekC->setNearestNeighbors<ompl::NearestNeighborsLinear>();
-        else if (peekL)
+        if (firstCall)
         {
-            peekL->setup();
-            peekL->installNN();
+            planner->setProblemDefinition(pdef);
+            if (peek)
+                peek->setNearestNeighbors<ompl::NearestNeighborsLinear>();  // clears, installs, calls setup()
+            else if (peekC)
+                peekC->setNearestNeighbors<ompl::NearestNeighborsLinear>();
+            else if (peekL)
+            {
+                peekL->setup();
+                peekL->installNN();
+            }
+            else
+                planner->setup();
         }
-        else
-            planner->setup();
+        firstCall = false;
         {
             // states sampled before solve() (e.g. ProjectionEvaluator::inferCellSizes during space setup) are not RRT's
             std::lock_guard<std::mutex> g(draws->m);
@@ -814,18 +842,18 @@ static int runOnce(const Config &c)
         if (lock)
         {
             auto cnt = std::make_shared<vp::EvalCounter>();
-            cnt->fireAt = c.budget;
+            cnt->fireAt = budgetNow;
             st = planner->solve(vp::evalCountPtc(cnt));
             polls = cnt->evals.load();
         }
         else
         {
-            const unsigned long budget = c.budget, cap = c.pollcap;
+            const unsigned long budget = budgetNow, cap = c.pollcap;
             auto *vcp = vc.get();
             auto *vcb = vcBase.get();
-            ob::PlannerTerminationCondition ptc([&polls, vcp, vcb, budget, cap] {
+            ob::PlannerTerminationCondition ptc([&polls, vcp, vcb, budget, cap, baseCalls] {
                 unsigned long p = ++polls;
-                return vcp->calls() + (vcb ? vcb->calls() : 0UL) >= budget || p >= cap;
+                return vcp->calls() + (vcb ? vcb->calls() : 0UL) - baseCalls >= budget || p >= cap;
             });
             st = planner->solve(ptc);
         }
@@ -882,8 +910,13 @@ static int runOnce(const Config &c)
                   << vp::showReals(vp::realsOf(space, startStates[k])) << "\n";
     std::cout << "goalinfo thr=" << vp::bits(c.thr) << " " << vp::showReals(vp::realsOf(space, goalState)) << "\n";
 
-    auto sols = pdef->getSolutions();  // sorted: the top solution first
-    const size_t maxSols = 4;
+    const auto allSols = pdef->getSolutions();  // sorted: the top solution first
+    // shown: the top 4, and (resume histories) up to 3 more of the solutions THIS call registered
+    std::vector<ob::PlannerSolution> sols;
+    for (size_t q = 0; q < allSols.size(); ++q)
+        if (q < 4 || (allSols[q].index_ >= (int)before && sols.size() < 7))
+            sols.push_back(allSols[q]);
+    const size_t maxSols = sols.size();
     for (size_t sidx = 0; sidx < sols.size() && sidx < maxSols; ++sidx)
     {
         const auto &sol = sols[sidx];
@@ -996,7 +1029,7 @@ static int runOnce(const Config &c)
             for (auto *x : qs)
                 si->freeState(x);
         }
-    std::cout << "sols total=" << sols.size() << " shown=" << std::min(sols.size(), maxSols) << "\n";
+    std::cout << "sols total=" << allSols.size() << " shown=" << std::min(sols.size(), maxSols) << "\n";
 
     unsigned long nvalid = 0;
     for (auto &q : log)
@@ -1025,6 +1058,39 @@ static int runOnce(const Config &c)
     {
         std::cout << "pdata exception\n";
     }
+    vc->setRecord(true);
+    };  // solveAndReport
+
+    for (size_t k = 0; k < c.calls.size(); ++k)
+    {
+        const std::string &tok = c.calls[k];
+        const size_t colon = tok.find(':');
+        const std::string cop = tok.substr(0, colon);
+        const std::string arg = colon == std::string::npos ? "" : tok.substr(colon + 1);
+        if (lock)
+            throw vp::ParseError("calls is for mode run");
+        if (cop == "solve" && vp::parseNat(arg))
+        {
+            std::cout << "call " << k << " begin\n";
+            solveAndReport(*vp::parseNat(arg));
+            std::cout << "call " << k << " end\n";
+        }
+        else if (cop == "clear")
+            planner->clear();
+        else if (cop == "clearsol")
+            pdef->clearSolutionPaths();
+        else if (cop == "opendoor" && !env.boxes.empty())
+        {
+            // the LAST box (the generator's door plug) disappears: states inside it become valid
+            env.boxes.pop_back();
+            vc->setEnv(env);
+            if (vcBase)
+                vcBase->setEnv(env);
+        }
+        else
+            throw vp::ParseError("calls op");
+    }
+    solveAndReport(c.budget);
 
     if (lock)
     {
@@ -1333,6 +1399,10 @@ int main()
             c.mode = rest[0];
         else if (op == "hist")
             c.hist = rest;
+        else if (op == "calls")
+            c.calls = rest;
+        else if (op == "boundsblind" && rest.size() == 1 && (rest[0] == "0" || rest[0] == "1"))
+            c.boundsBlind = rest[0] == "1";
         else if (op == "trace" && rest.size() == 1 && (rest[0] == "0" || rest[0] == "1"))
             c.trace = rest[0] == "1";
         else if (op == "oneway" && rest.size() == 4)
